@@ -12,7 +12,7 @@
    number of such contributions, counted with multiplicity. *)
 From Coq Require Import List NArith Arith Bool.
 From Verif.Common Require Import Labels Prefix.
-From Verif.C04 Require Import Model Spec Sets Refs Counts Proofs State Inv Main View ViewThms MeetsSpec.
+From Verif.C04 Require Import Model Spec Sets Refs Counts Proofs State Inv Main View ViewThms MeetsSpec Addr.
 Import ListNotations.
 
 (* Each member once however many endpoints contribute it: over any history, any iteration order and
@@ -117,6 +117,18 @@ Theorem c04_suppressed_view : forall sel_of shuffle prune_ep prune_set ops st ev
                  exists e, In (MCidr e) (F sid) /\ ccovers e c = true).
 Proof. exact c04_suppressed_view_proof. Qed.
 Print Assumptions c04_suppressed_view.
+
+(* ... literally: with suppression an address lies in some emitted CIDR iff it lies in some selected CIDR. *)
+Theorem c04_suppressed_same_cover_addresses : forall sel_of shuffle prune_ep prune_set ops st evss,
+  oracles_ok shuffle prune_ep prune_set -> Forall op_wf ops -> Forall (op_interned sel_of) ops ->
+  run true shuffle prune_ep prune_set empty_state ops = (st, evss) ->
+  exists F, replay_f (fun _ => []) ops evss = Some F /\
+    forall sid vs, alookup sid (v_sets (view_of ops)) = Some vs ->
+      forall f a, (a < 2 ^ N.of_nat (width f))%N ->
+        ((exists c, In (MCidr c) (F sid) /\ caddr_in c f a = true) <->
+         (exists c, In (MCidr c) (spec_members (view_of ops) vs) /\ caddr_in c f a = true)).
+Proof. exact c04_suppressed_same_addresses_proof. Qed.
+Print Assumptions c04_suppressed_same_cover_addresses.
 
 (* The specification oracle of Spec.v — the one the correspondence run applies to the implementation's
    own event stream — accepts every run of the model: every history, either suppressor setting, every
